@@ -1450,4 +1450,131 @@ Section Sim.
         rewrite app_length, rev_length. rewrite total_len_last. unfold byte in *. lia.
   Qed.
 
+  (* ====================================================================== *)
+  (* the fast loop (LZ4_FAST_DEC_LOOP), full-block decoding                   *)
+  (* ====================================================================== *)
+  Definition is_cont_any (out : dout) (P : dstate -> Prop) : Prop :=
+    match out with Cont _ s' => P s' | _ => False end.
+  Lemma is_cont_any_mono out (P Q : dstate -> Prop) :
+    is_cont_any out P -> (forall s', P s' -> Q s') -> is_cont_any out Q.
+  Proof. destruct out as [f s'|s'|s']; cbn [is_cont_any]; intros H HQ; try contradiction; auto. Qed.
+  Lemma is_cont_is_any out P : is_cont out P -> is_cont_any out P.
+  Proof. destruct out as [[|] s'|s'|s']; cbn [is_cont is_cont_any]; intros H; try contradiction; exact H. Qed.
+  Lemma is_cont_f_any f out P : is_cont_f f out P -> is_cont_any out P.
+  Proof. destruct out as [f' s'|s'|s']; cbn [is_cont_f is_cont_any]; intros H; try contradiction; apply H. Qed.
+
+  Ltac hda :=
+    lazymatch goal with
+    | |- is_cont_any (if ?c then _ else _) _ => first [dec_true c | dec_false c]
+    end.
+
+  (* match copy of the fast loop: the match ends more than 64 bytes before oend *)
+  Lemma fast_match_sim s offset length :
+    1 <= offset -> lowPrefix - hroom <= op s - offset -> 4 <= length -> 0 <= op s ->
+    op s + length < oend - 64 ->
+    is_cont_any (fast_match partial dict oend lowPrefix rlow dictm dictSize s offset length)
+                (vmatch_post s offset length).
+  Proof.
+    intros Ho Hmat Hlen Hop Hroom.
+    unfold fast_match. cbv zeta.
+    destruct (Z_lt_ge_dec (op s - offset) lowPrefix) as [Hext|Hin].
+    - destruct hroom_ext as [Hed Hhr]; [lia|].
+      assert (E1 : checkOffset dictSize && (op s - offset + dictSize <? lowPrefix) = false) by lia. rewrite E1. cbv beta iota.
+      assert (E2 : is_extdict dict && (op s - offset <? lowPrefix) = true) by lia. rewrite E2. cbv beta iota.
+      eapply is_cont_f_any. apply ext_match_sim; try assumption; lia.
+    - hda. hda.
+      destruct (offset <? 16) eqn:E16; cbv beta iota.
+      + destruct (using_offset_lz (dm s) (op s) offset (op s + length) Ho) as [S R].
+        cbn [is_cont_any]. unfold vmatch_post. cbn [ip op dm].
+        split; [reflexivity|]. split; [reflexivity|]. split; [exact S|].
+        apply lzrec_v; [exact R | lia | lia].
+      + destruct (wild32_lz (dm s) (op s) offset (op s + length)) as [S R]; [lia|].
+        cbn [is_cont_any]. unfold vmatch_post. cbn [ip op dm].
+        split; [reflexivity|]. split; [reflexivity|]. split; [exact S|].
+        apply lzrec_v; [exact R | lia | lia].
+  Qed.
+
+  (* from the offset field to the end of the match, fast loop *)
+  Lemma fast_offset_sim (i o : Z) (m1 : mem) kf tok o1 o2 r3 ml r4 rout0 rout1 :
+    0 <= tok < 256 -> bytes (o1 :: o2 :: r3) ->
+    src_at srcm i (o1 :: o2 :: r3) -> 0 <= i -> i + Z.of_nat (length (o1 :: o2 :: r3)) <= iend ->
+    read_len (tok mod 16) r3 = Some (ml, r4) -> (4 <= length r4)%nat ->
+    out_at (vget m1) o rout0 -> Z.of_nat (length rout0) <= o - lowPrefix + hroom -> 0 <= o ->
+    copy_match rout0 (Z.to_nat (o1 + 256 * o2)) (Z.to_nat (ml + 4)) = Some rout1 ->
+    1 <= o1 + 256 * o2 ->
+    (if partial then o + (ml + 4) <= oend - 12 else o + (ml + 4) <= oend - 5) ->
+    is_cont_any (fast_offset partial dict srcm iend oend lowPrefix rlow dictm dictSize (mkD i o m1 kf) tok)
+            (fun s' => ip s' = i + 2 + (Z.of_nat (length r3) - Z.of_nat (length r4)) /\ src_at srcm (ip s') r4 /\
+                       (length r4 <= length r3)%nat /\
+                       op s' = o + (ml + 4) /\ out_at (vget (dm s')) (op s') rout1).
+  Proof.
+    intros Htok Hb Hs Hi Hie Hrl Hr4 O Hlen Ho Hcm Hoff Hroom.
+    unfold byte in *.
+    destruct (nibbles tok Htok) as [_ Hnib].
+    pose proof (readLE16_src _ _ _ _ Hs) as Hle.
+    destruct (src_at_cons _ _ _ _ Hs) as [_ Hs1]. destruct (src_at_cons _ _ _ _ Hs1) as [_ Hs2].
+    destruct (bytes_cons _ _ Hb) as [_ Hb1]. destruct (bytes_cons _ _ Hb1) as [_ Hb2].
+    replace (i + 1 + 1) with (i + 2) in Hs2 by lia.
+    cbn [length] in Hie.
+    destruct (read_len_suffix _ _ _ _ _ Hnib Hrl Hb2 Hs2) as (Hl2 & Hml & Hnoext2 & Hs5 & Hb5). unfold byte in *.
+    assert (Hml0 : 0 <= ml) by lia.
+    assert (Hoffle : o1 + 256 * o2 <= Z.of_nat (length rout0)).
+    { replace (Z.to_nat (ml + 4)) with (S (Z.to_nat (ml + 3))) in Hcm by lia.
+      apply copy_match_off in Hcm. unfold byte in *. lia. }
+    (* common end: a state that satisfies vmatch_post yields the post-condition *)
+    assert (Hfin : forall p kf' s', ip s' = p ->
+               vmatch_post (mkD p o m1 kf') (o1 + 256 * o2) (ml + 4) s' ->
+               op s' = o + (ml + 4) /\ out_at (vget (dm s')) (op s') rout1).
+    { intros p kf'' s' Hp (H1 & H2 & H3 & H4). cbn [ip op dm] in *. split; [exact H2|].
+      rewrite H2. replace (ml + 4) with (Z.of_nat (Z.to_nat (ml + 4))) at 1 by lia.
+      apply copy_match_out with (rout := rout0) (off := Z.to_nat (o1 + 256 * o2)).
+      - lia.
+      - exact Hcm.
+      - eapply out_at_v_same_below; eauto.
+      - replace (Z.of_nat (Z.to_nat (o1 + 256 * o2))) with (o1 + 256 * o2) by lia.
+        replace (Z.of_nat (Z.to_nat (ml + 4))) with (ml + 4) by lia. exact H4. }
+    unfold fast_offset. cbv zeta. cbn [ip op dm ok]. rewrite Hle.
+    destruct (tok mod 16 =? ML_MASK) eqn:E15; cbv beta iota.
+    - unfold read_len in Hrl. assert (E15' : (tok mod 16 =? 15) = true) by fin. rewrite E15' in Hrl.
+      destruct (rvl_sim r3 ml r4 (i + 2) (iend - LASTLITERALS + 1) false (kf && rd_src iend i 2) Hrl Hs2) as (_ & _ & kf' & Hr); [fin | fin | fin |].
+      rewrite Hr. cbv beta iota.
+      replace (tok mod 16 + (ml - 15) + MINMATCH) with (ml + 4) by fin.
+      destruct (o + (ml + 4) >=? oend - FASTLOOP_SAFE_DISTANCE) eqn:Efar; cbv beta iota.
+      + eapply is_cont_any_mono.
+        * apply is_cont_is_any. apply (safe_match_v (mkD (i + 2 + (Z.of_nat (length r3) - Z.of_nat (length r4))) o m1 kf') (o1 + 256 * o2) (ml + 4)); cbn [ip op dm]; try assumption; try lia.
+        * intros s' Hv. pose proof Hv as (H1 & _). cbn [ip] in H1.
+          destruct (Hfin _ _ _ H1 Hv) as [H2 H3]. repeat split; try assumption. rewrite H1. exact Hs5.
+      + eapply is_cont_any_mono.
+        * apply (fast_match_sim (mkD (i + 2 + (Z.of_nat (length r3) - Z.of_nat (length r4))) o m1 kf') (o1 + 256 * o2) (ml + 4)); cbn [ip op dm]; try assumption; try fin.
+        * intros s' Hv. pose proof Hv as (H1 & _). cbn [ip] in H1.
+          destruct (Hfin _ _ _ H1 Hv) as [H2 H3]. repeat split; try assumption. rewrite H1. exact Hs5.
+    - assert (Hlt15 : tok mod 16 < 15) by fin.
+      destruct (Hnoext2 Hlt15) as [Eml Er4].
+      replace (tok mod 16 + MINMATCH) with (ml + 4) by fin.
+      assert (Hs5' : src_at srcm (i + 2) r4).
+      { rewrite Er4. exact Hs2. }
+      assert (Hip' : i + 2 = i + 2 + (Z.of_nat (length r3) - Z.of_nat (length r4))) by (rewrite Er4; lia).
+      destruct (o + (ml + 4) >=? oend - FASTLOOP_SAFE_DISTANCE) eqn:Efar; cbv beta iota.
+      + eapply is_cont_any_mono.
+        * apply is_cont_is_any. apply (safe_match_v (mkD (i + 2) o m1 (kf && rd_src iend i 2)) (o1 + 256 * o2) (ml + 4)); cbn [ip op dm]; try assumption; try lia.
+        * intros s' Hv. pose proof Hv as (H1 & _). cbn [ip] in H1.
+          destruct (Hfin _ _ _ H1 Hv) as [H2 H3]. repeat split; try assumption; try lia. rewrite H1. exact Hs5'.
+      + destruct ((is_prefix64k dict || (o - (o1 + 256 * o2) >=? lowPrefix)) && (o1 + 256 * o2 >=? 8)) eqn:E18; cbv beta iota.
+        * (* 18-byte copy *)
+          assert (Hmatge : lowPrefix <= o - (o1 + 256 * o2)).
+          { destruct (is_prefix64k dict) eqn:E64; [pose proof (hroom_p64 E64); lia | fin]. }
+          destruct (copy18_lz m1 o (o1 + 256 * o2)) as [S R]; [lia|].
+          cbn [is_cont_any ip op dm].
+          assert (Hv : vmatch_post (mkD (i + 2) o m1 kf) (o1 + 256 * o2) (ml + 4)
+                         (mkD (i + 2) (o + (ml + 4)) (copy18 m1 o (o - (o1 + 256 * o2))) kf)).
+          { unfold vmatch_post. cbn [ip op dm]. split; [reflexivity|]. split; [reflexivity|]. split; [exact S|].
+            apply lzrec_v; [|lia|lia]. eapply lzrec_weaken; [exact R | lia | fin]. }
+          destruct (Hfin (i + 2) kf (mkD (i + 2) (o + (ml + 4)) (copy18 m1 o (o - (o1 + 256 * o2))) kf) eq_refl Hv) as [H2 H3]. cbn [op dm] in H2, H3.
+          repeat split; try assumption; try lia.
+        * eapply is_cont_any_mono.
+          -- apply (fast_match_sim (mkD (i + 2) o m1 (kf && rd_src iend i 2)) (o1 + 256 * o2) (ml + 4)); cbn [ip op dm]; try assumption; try fin.
+          -- intros s' Hv. pose proof Hv as (H1 & _). cbn [ip] in H1.
+             destruct (Hfin _ _ _ H1 Hv) as [H2 H3]. repeat split; try assumption; try lia. rewrite H1. exact Hs5'.
+  Qed.
+
 End Sim.
